@@ -5,6 +5,7 @@ import (
 	"crypto"
 	"errors"
 	"fmt"
+	"math/big"
 	"strings"
 	"testing"
 
@@ -74,6 +75,14 @@ func checkPSK(c pskCase, r *h.Rec) error {
 		}
 		if oidString(v.outerOID) != wantOuter.String() || oidString(v.algOID) != ci.c.OID().String() {
 			out = fmt.Errorf("content type / algorithm %s / %s: %s", oidString(v.outerOID), oidString(v.algOID), desc())
+			return
+		}
+		wantVersion := 0 // RFC 2315 EncryptedData; GB/T 35275: 1
+		if c.SM {
+			wantVersion = 1
+		}
+		if len(v.version.content) != 1 || int(v.version.content[0]) != wantVersion {
+			out = fmt.Errorf("EncryptedData version %x, want %d: %s", v.version.content, wantVersion, desc())
 			return
 		}
 		if c.Len >= 16 && bytes.Contains(der, content[:16]) {
@@ -248,6 +257,45 @@ func checkSAEDInner(c saedCase, r *h.Rec) error {
 	desc := func() string { return fmt.Sprintf("case=%s content=%x message=%x", c.Key(), content, der) }
 	if c.Len >= 16 && bytes.Contains(der, content[:16]) {
 		return fmt.Errorf("the message contains the plaintext: %s", desc())
+	}
+	// own reading: SEQUENCE { oid, [0] { SEQUENCE { version, recipientInfos, digestAlgorithms, encryptedContentInfo, [0] certificates, signerInfos } } }
+	root, err := parseAll(der)
+	if err != nil {
+		return fmt.Errorf("produced message is not DER (%v): %s", err, desc())
+	}
+	sed := root.child(1).child(0)
+	if sed == nil || len(sed.children) < 5 || !sed.children[1].is(0x31) || len(sed.children[1].children) != len(c.Recips) {
+		return fmt.Errorf("produced message does not have the SignedAndEnvelopedData layout / one recipient info per recipient: %s", desc())
+	}
+	wantOuter := pkcs7.OIDSignedEnvelopedData
+	if c.SM {
+		wantOuter = pkcs7.SM2OIDSignedEnvelopedData
+	}
+	if oidString(root.children[0].content) != wantOuter.String() {
+		return fmt.Errorf("content type %s, want %s: %s", oidString(root.children[0].content), wantOuter, desc())
+	}
+	for i, ri := range sed.children[1].children {
+		f := ri.children
+		if !ri.is(0x30) || len(f) != 4 || !f[1].is(0x30) || len(f[1].children) != 2 || !f[2].is(0x30) || len(f[2].children) < 1 || !f[3].is(0x04) {
+			return fmt.Errorf("recipient info %d is not SEQUENCE{version, issuerAndSerialNumber, algorithm, encryptedKey}: %s", i, desc())
+		}
+		var who *ident
+		for _, n := range c.Recips {
+			cert := id(n).cert
+			if bytes.Equal(f[1].children[0].der(), cert.RawIssuer) && new(big.Int).SetBytes(f[1].children[1].content).Cmp(cert.SerialNumber) == 0 {
+				who = id(n)
+			}
+		}
+		if who == nil {
+			return fmt.Errorf("recipient info %d does not name a recipient by issuer and serial number: %s", i, desc())
+		}
+		wantAlg := pkcs7.OIDKeyEncryptionAlgorithmSM2
+		if who.kind == "rsa" {
+			wantAlg = pkcs7.OIDEncryptionAlgorithmRSA
+		}
+		if oidString(f[2].children[0].content) != wantAlg.String() {
+			return fmt.Errorf("recipient info %d (%s key): key encryption algorithm %s, want %s: %s", i, who.kind, oidString(f[2].children[0].content), wantAlg, desc())
+		}
 	}
 	isRecipient := map[string]bool{}
 	for _, n := range c.Recips {
